@@ -37,6 +37,8 @@ TARGETED = [
     "NOT a OR NOT b OR NOT c", "+a -b -c", "NOT n.x:d OR NOT n.y:e", "-t:b -n:(x:d)",
     # + in front of a group / of an operation inside a boolean operation
     "+(a OR b) c", "+(a b) c", "+(a AND b) c", "+t:(a OR b) c", "n:(+(x:d OR x:d2) y:e)", "NOT a OR b c", "+a OR b c", "-a OR b c", "c NOT a OR b",
+    # several required / optional / excluded clauses of one boolean operation on the same nested path (one object each may satisfy them)
+    "+n.x:d +n.x:d2", "+n.x:d +n.y:e c", "+n.m.z:g +n.m.z:g2", "n.x:d n.x:d2", "+n.x:d -n.x:d2 n.y:e", "-n.x:d -n.x:d2", "+n:(x:d) +n:(x:d2)",
     "nx:q", "nx:q AND n.x:d", "n.mz:p", "n:(mz:p)", "n:(mz:p AND m.z:g)", "n.xy:r OR n.x:d", "n_m:s n.m.z:g",
 ]
 
